@@ -23,7 +23,7 @@ PROP = dict(
     engines=[dict(hx="stats"), dict(hx="limit", model="statslimit")],
     theorems=["C38_counters", "C38_every_quiescent_point", "C38_step", "C38_connected_under_schedules"],
     model_files="coq/Session/Stats.v coq/Session/StatsLimit.v (over coq/Conc/Limit.v)",
-    rule="200 (thorough 6000) histories of 36 (60) steps over client ids {a,b,c}: CONNECT (v3/4/5, clean 0/1, session "
+    rule="150 (thorough 6000) histories of 36 (60) steps over client ids {a,b,c}: CONNECT (v3/4/5, clean 0/1, session "
          "expiry property, refused connect, takeover of connected and of parked sessions), SUBSCRIBE 1-2 filters incl. "
          "re-subscription, $share / $SHARE variants of one group, invalid and $SYS filters, UNSUBSCRIBE incl. absent "
          "filters and identifiers in use, PUBLISH QoS 0-2 with ids from {1..4} (colliding with outbound records), "
